@@ -18,6 +18,12 @@ MODS = {
     'let-assign': 'let a = 1; a = <C1>{{a}}</C1>;', 'assign-in-fn': 'function g() {{ v3 = <Foo>{{v3}}</Foo>; return v3; }}', 'assign-arrow': 'const g = () => (v1 = <Foo>{{v1}}</Foo>);',
     'assign-call-child': 'v1 = <Foo>{{f1()}}</Foo>;', 'assign-el': 'v1 = <div>{{v1}}</div>;', 'assign-nested': 'v1 = <Foo><C1>{{v1}}</C1></Foo>;', 'assign-frag': 'v1 = <><Foo>{{v1}}</Foo></>;',
     'two-assign': 'v1 = <Foo>{{v1}}</Foo>; v2 = <Foo>{{v2}}</Foo>;', 'assign-op': 'v1 ||= <Foo>{{v1}}</Foo>;', 'assign-cond': 'v1 = v2 ? <Foo>{{v1}}</Foo> : <C1>{{v2}}</C1>;',
+    # attributes that feed the hint analysis on an element that also has children
+    'vhtml-kids': 'const _0 = <div v-html={{v1}}>loading</div>;', 'vtext-kids': 'const _0 = <p v-text={{v1}}><span class="p">x</span></p>;', 'innerhtml-kids': 'const _0 = <div innerHTML={{v1}}>{{v2}}</div>;',
+    'textcontent-kids': 'const _0 = <b textContent={{v1}}>t{{v2}}</b>;', 'dyn-attr-kids': 'const _0 = <div id={{v1}} class={{v2}}>{{v2}}<b/></div>;', 'model-kids': 'const _0 = <select v-model={{v1}}><option>a</option></select>;',
+    'show-kids': 'const _0 = <div v-show={{v1}}>x{{v2}}</div>;', 'dir-comp-kids': 'const _0 = <Foo v-foo={{v1}} a={{v2}}>{{f1()}}</Foo>;', 'ref-kids': 'const _0 = <div ref={{v1}} key={{v2}}><i/>t</div>;',
+    'spread-kids': 'const _0 = <div {{...s1}} id="a">a{{v1}}</div>;', 'on-kids': 'const _0 = <div onClick={{f1}} onInput={{f1}}>{{v1}}</div>;', 'vhtml-comp-kids': 'const _0 = <Foo v-html={{v1}}>a</Foo>;',
+    'vslots-kids': 'const _0 = <Foo v-slots={{s1}} a={{v1}}><b/>{{v2}}</Foo>;', 'vhtml-nested': 'const _0 = <ul><li v-html={{v1}}>x</li><li v-text={{v2}}>{{v3}}</li></ul>;',
     'decl-self': 'const z = <Foo>{{z}}</Foo>;', 'param-default': 'function g(p = <Foo>{{v1}}</Foo>) {{ return p; }}', 'class-prop': 'class K {{ m() {{ v1 = <Foo>{{v1}}</Foo>; }} }}',
 }
 
